@@ -108,6 +108,8 @@ def run_paths(model, key: str, text, pipeline: bool = False) -> List[Tuple[Dict[
             zero = all(isinstance(a, (int, float)) and a == 0 for a in [*args, *kwargs.values()])
             return Obj("datetime.timedelta", {"zero": zero})
 
+        it.ext_bases.update({f"{STUB_MODULE}.AbstractDateTime": ["datetime.datetime", "datetime.date"], f"{STUB_MODULE}.AbstractTime": ["datetime.time"],
+                             f"{STUB_MODULE}.AbstractOffset": ["datetime.timedelta"]})
         it.ext_handlers.update({
             "datetime.datetime.fromisoformat": fromiso, "vstat_ext.vstat_astimezone": astimezone, "vstat_ext.vstat_component": component,
             "vstat_ext.vstat_same_wallclock": same_wallclock, "vstat_ext.vstat_offset_equals": offset_equals,
